@@ -19,7 +19,8 @@
 (*  done                    before close(done)                             *)
 (*  blocked {t,kind,p}      gated replay: the thread was granted a step    *)
 (*         that the model says is enabled and blocked in its select        *)
-(*  quiet  {phase,stuckR,stuckC,timeout,q,cg}  driver-declared quiescent   *)
+(*  quiet  {phase,stuckR,stuckC,stuckO,timeout,q,cg}  driver-declared      *)
+(*         quiescent point (stuckO = other goroutines blocked for good):   *)
 (*         point: phase 1 = all gates released, producers finished, every  *)
 (*         other goroutine finished or blocked in a select; phase 2 =      *)
 (*         after finish() returned; phase 3 = after done was closed.       *)
@@ -109,7 +110,9 @@ Quiet == /\ Ev.ev = "quiet"
          /\ q' = Ev.q
          /\ LET cg == SeqSet(Ev.cg)
                 nR == Len(Ev.stuckR) IN
-            /\ Mark(Ev.timeout, "P_NoDeadlock", l)
+            \* a goroutine that never parks (producer, closer) or anybody waiting for c.mu is blocked for good
+            /\ Mark(Len(Ev.stuckO) > 0, "P_NoDeadlock", l)
+            /\ Drift(Ev.timeout, "SettleTimeout", l)
             /\ Mark(Ev.phase = 1 /\ nR > 0 /\ (NThr(Ev.q) < max \/ closed \/ doneSeen), "P_ReaderReleased", l)
             /\ Mark(Ev.phase = 1 /\ Ev.stuckC /\ (Len(Ev.q) > 0 \/ doneSeen), "P_ConsumerWoken", l)
             /\ Mark(Ev.phase = 2 /\ nR > 0, "P_ReleasedOnClose", l)
